@@ -357,7 +357,11 @@ def cargo_build(profile="release", hooks=True, timeout=1500):
     if REPO != "/repo":
         # testing aid (seeded changes evaluated in a scratch worktree): same harness sources, path
         # dependency redirected to RB_REPO, separate target directory
-        hdir = os.path.join(BUILD, "harness-alt")
+        # one private harness copy and target directory per scratch tree: concurrent users of RB_REPO
+        # (several evaluations at once) must never read each other's binaries
+        import hashlib
+        tag = hashlib.sha1(REPO.encode()).hexdigest()[:10]
+        hdir = os.path.join(BUILD, "alt", tag, "harness")
         os.makedirs(hdir, exist_ok=True)
         toml = open(os.path.join(HARNESS, "Cargo.toml")).read().replace('path = "/repo"', 'path = "%s"' % REPO)
         write_if_changed(os.path.join(hdir, "Cargo.toml"), toml)
@@ -365,7 +369,7 @@ def cargo_build(profile="release", hooks=True, timeout=1500):
             dst = os.path.join(hdir, name)
             if not os.path.lexists(dst):
                 os.symlink(os.path.join(HARNESS, name), dst)
-        tdir = os.path.join(BUILD, "cargo-alt-hook" if hooks else "cargo-alt-api")
+        tdir = os.path.join(BUILD, "alt", tag, "cargo-hook" if hooks else "cargo-api")
     env = {"CARGO_TARGET_DIR": tdir, "RB_REPO": REPO}
     if hooks:
         env["RUSTFLAGS"] = "--cfg rustybuzz_verif"
@@ -378,7 +382,7 @@ def cargo_build(profile="release", hooks=True, timeout=1500):
         cmd.append("--release")
     else:
         cmd += ["--profile", profile]
-    with Lock("cargo-" + ("hook" if hooks else "api")):
+    with Lock("cargo-" + ("hook" if hooks else "api") + ("" if REPO == "/repo" else "-" + tag)):
         rc, out, err = sh(cmd, cwd=hdir, env=env, timeout=timeout)
     binp = os.path.join(tdir, profile, "rbv")
     return rc == 0, binp, out + err
